@@ -93,6 +93,13 @@ func (m *MatchWinbox) Match(cx *layer4.Connection) (bool, error) {
 	if err != nil || n > l {
 		return false, err
 	}
+	if int(hdr[0]) == MessageChunkBytesMax && n > MessageChunkBytesMax {
+		// A continuation chunk has started. Until all of it has arrived the message
+		// is incomplete, not malformed.
+		if n < MessageChunkBytesMax+2 || n < MessageChunkBytesMax+2+int(buf[2+MessageChunkBytesMax]) {
+			return false, layer4.ErrConsumedAllPrefetchedBytes
+		}
+	}
 
 	// Parse MessageAuth
 	msg := &MessageAuth{}
